@@ -6,10 +6,10 @@ pc.install(globals(), "C06", "C06", "close / cancel / no leak / no panic",
           "Unfold, Emit, Throttling) x capacities 0..2 x (a) random schedules with the cancel at a random position and active consumers, "
           "(b) absent consumers: sends, optional early receives, then cancel and close in both orders and nothing else - the census of "
           "goroutines of package pipe is taken without any further receive, (c) enumerated 5-token interleavings over "
-          "{send, close, recv, cancel} (seeded sample); virtual time for Emit/Throttling. Distinct by full observed trace; "
+          "{send, close, recv, cancel} (seeded sample); virtual time for Emit/Throttling. Emit under Try failing for ever from some index on + cancel; free-running cancel rounds (real goroutines, consumer parked in a blocking receive, producers parked in their sends, cancel mid-stream; judged in Go). Distinct by full observed trace; "
           "non-trivial when a value was delivered or the run was cancelled"),
     claim={
-        "text": "Theorems proved by the Coq kernel for every well-formed stage, capacity and schedule: NOPANIC (no send on a closed channel, no double close), channels are closed only by their owner's return / after all workers returned and are closed once those returned; delivered streams are prefixes of the uncancelled result in every reachable state (cancelled or not; Fold never delivers a partial accumulator); DRAIN and CANCEL-EXIT: with the inputs closed, the only states without an enabled step are those where every goroutine has returned and every channel is closed - after cancel without any receive (plain sends proved never to block); NO LIVELOCK: the internal step relation of a stage (worker steps with either select resolution, the closer) is well-founded from every state - for every stage without generator sources, and for generator stages whose rounds contain a send that needs room, a positive timer or a return (Unfold, Emit, Throttling with ops >= 1 or interval > 0) - so only finitely many internal steps happen between two environment events. Tied to the code by trace acceptance incl. goroutine census.",
+        "text": "Theorems proved by the Coq kernel for every well-formed stage, capacity and schedule: NOPANIC (no send on a closed channel, no double close), channels are closed only by their owner's return / after all workers returned and are closed once those returned; delivered streams are prefixes of the uncancelled result in every reachable state (cancelled or not; Fold never delivers a partial accumulator); DRAIN and CANCEL-EXIT: with the inputs closed, the only states without an enabled step are those where every goroutine has returned and every channel is closed - after cancel without any receive (plain sends proved never to block); NO LIVELOCK: the internal step relation of a stage (worker steps with either select resolution, the closer) is well-founded from every state - for every stage without generator sources, and for generator stages whose rounds contain a send that needs room, a positive timer or a return (Unfold, Emit, Throttling with ops >= 1 or interval > 0) - so only finitely many internal steps happen between two environment events; PROGRESS: for every sequential stage (Map, FMap, Filter, Partition, Take, TakeWhile, ForEach/Void, Fold) and every ordering of the environment's moves, whenever no internal step is enabled the goroutine has returned, or is parked on an empty open input and accepts the next send at once (also unbuffered), or is blocked in a send on an open output without room - only back-pressure from a consumer keeps a stage from taking its input, it never waits for a token or timer and holds nothing back while every output has room (C06_only_backpressure_blocks, C06_stages_only_backpressure_blocks, C06_room_nothing_held). Tied to the code by trace acceptance incl. goroutine census.",
         "design_ref": "DESIGN.md 2.1.3, 3/C06",
         "note": "Trusted: Coq kernel; Pool machine as model of Go channels/select/goroutines/context; harness (synctest, runtime.Stack census). Assumed: scheduler fairness (an enabled goroutine eventually runs). That the internal steps between two environment events terminate is a theorem (C06_internal_steps_terminate, C06_internal_steps_terminate_gen, C06_generator_stages_terminate; a generator without a blocking statement in its round does spin: C06_generator_without_blocker_spins). A panic inside user callbacks is outside the property.",
         "technique": "Coq proof (safety invariants + progress lemmas over a hand-written model) + trace-acceptance correspondence",
